@@ -11,8 +11,8 @@ THOROUGH_SCALE = 8
 ID = "C16"
 LEVEL = "exploration"
 SHARDS = {"quick": 1, "thorough": 16}
-RULE = ("cases = finite histories over a 37-letter alphabet for 3 telecommands: add_tc(t) x3, add_tm(report(t, subservice 1..8, step "
-        "value in {1,2} for step reports)) x30, remove_entry(t) x3, remove_completed_entries(); exhaustive to depth 3 (quick) / 4 "
+RULE = ("cases = finite histories over a 43-letter alphabet for 3 telecommands: add_tc(t) x3, add_tm(report(t, subservice 1..8, step "
+        "value in {1, 2 with the top bit of the field set, 0} for step reports)) x30, remove_entry(t) x3, remove_completed_entries(); exhaustive to depth 3 (quick) / 4 "
         "(thorough), plus random histories of length 20..200; after every call the return value and the entire verif_dict are "
         "compared with the reference state machine and the model-independent invariants are checked; non-trivial = history contains "
         "an add_tm for a registered telecommand; distinct = distinct letter sequences")
@@ -66,7 +66,7 @@ def env(set_id=None, route=None):
     cw = (1, 2, 4, 8)[(set_id + (0 if route == "ctor" else 2)) % 4]
     for t in range(N_TC):
         for sub in range(1, 9):
-            steps = (1, (1 << (8 * sw - 1)) | 2) if sub in (5, 6) else (None,)          # the second step number has the top bit of its field set
+            steps = (1, (1 << (8 * sw - 1)) | 2, 0) if sub in (5, 6) else (None,)       # the second step number has the top bit of its field set, the third is the smallest one
             for st in steps:
                 step = None if st is None else PacketFieldEnum.with_byte_size(sw, st)
                 notice = FailureNotice(PacketFieldEnum.with_byte_size(cw, 7), b"") if sub % 2 == 0 else None
@@ -319,7 +319,7 @@ def run(ctx):
     r = ctx.rng
     E = env()
     n = len(E["letters"])
-    assert n == 37
+    assert n == 43
     depth = 3 if ctx.quick else 4
     for d in range(1, depth + 1):
         i = 0
@@ -327,7 +327,7 @@ def run(ctx):
             i += 1
             if ctx.mine(i):
                 k_history(ctx, hist)
-    ctx.exhaustive.append(f"all histories of length 1..{depth} over the 37-letter alphabet ({sum(37 ** d for d in range(1, depth + 1))} histories)")
+    ctx.exhaustive.append(f"all histories of length 1..{depth} over the 43-letter alphabet ({sum(43 ** d for d in range(1, depth + 1))} histories)")
     # the sets of nearly identical request ids: all histories to depth 2 (thorough: 3), then random ones
     for ts in (1, 2, 3, 4):
         for d in range(1, (2 if ctx.quick else 3) + 1):
